@@ -48,14 +48,15 @@ theorem gamma_ur_loop1_eq_lr_loop3 (big big_inv eps : ℝ) :
 
 /-! ### series region -/
 
-/-- full(ℝ): in its series region `x < 1 ∨ x ≤ a` `checked_gamma_ur` is `1 −` the series value of `gamma_lr`. -/
+/-- full(ℝ): in its series region `x < 1 ∨ x ≤ a` `checked_gamma_ur` is `1 −` the series value of `gamma_lr`, for
+    `a > 1.11e-15` and EVERY `x > 0` (for `0 < x ≤ 1.11e-15` this was `1 − 0` before commit 9f2f5b7). -/
 theorem gamma_ur_series_value (a x : ℝ) (ha : (0.0000000000000011102230246251565 : ℝ) < a)
-    (hx : (0.0000000000000011102230246251565 : ℝ) < x)
+    (hx : 0 < x)
     (hu : -(709.78271289338399 : ℝ) ≤ a * Real.log x - x - F.gamma.ln_gamma a)
     (hs : x < 1 ∨ x ≤ a) (hfuel : stopIdx a x 1e-15 ≤ loopFuel) :
     F.gamma.checked_gamma_ur a x =
       .ok (1 - Real.exp (a * Real.log x - x - F.gamma.ln_gamma a) * psum a x (stopIdx a x 1e-15) / a) := by
-  obtain ⟨g1, g2, g3, -, -⟩ := gamma_lr_guards_real ha hx
+  obtain ⟨g1, g2, g3, -⟩ := gamma_lr_guards_real ha hx
   have hs' : x ≤ 1 ∨ x ≤ a := hs.imp le_of_lt id
   rw [BranchPins.checked_gamma_ur_complement a x g1 g2 g3
     (by rw [show (1.0 : ℝ) = 1 by norm_num]; exact hs),
@@ -66,7 +67,7 @@ theorem gamma_ur_series_value (a x : ℝ) (ha : (0.00000000000000111022302462515
     `ok (1 − P(a,x)·exp(log Γ(a) − LG a)·S_N/S_∞)` with `1 − 1e-15·x/(a+N+1−x) ≤ S_N/S_∞ ≤ 1`.
     (The ABSOLUTE error is that of `P`; nothing is claimed about the relative error of a small `Q`.) -/
 theorem gamma_ur_series_accuracy (a x : ℝ) (ha : (0.0000000000000011102230246251565 : ℝ) < a)
-    (hx : (0.0000000000000011102230246251565 : ℝ) < x)
+    (hx : 0 < x)
     (hu : -(709.78271289338399 : ℝ) ≤ a * Real.log x - x - F.gamma.ln_gamma a)
     (hs : x < 1 ∨ x ≤ a) (hfuel : stopIdx a x 1e-15 ≤ loopFuel) :
     F.gamma.checked_gamma_ur a x =
@@ -86,7 +87,7 @@ theorem gamma_ur_series_accuracy (a x : ℝ) (ha : (0.00000000000000111022302462
 /-- full(ℝ): in the series region, whenever the series value is returned, `checked_gamma_lr` and
     `checked_gamma_ur` add up to 1 (by construction: `ur = 1 − gamma_lr`). -/
 theorem gamma_lr_ur_series_complement (a x : ℝ) (ha : (0.0000000000000011102230246251565 : ℝ) < a)
-    (hx : (0.0000000000000011102230246251565 : ℝ) < x)
+    (hx : 0 < x)
     (hu : -(709.78271289338399 : ℝ) ≤ a * Real.log x - x - F.gamma.ln_gamma a)
     (hs : x < 1 ∨ x ≤ a) (hfuel : stopIdx a x 1e-15 ≤ loopFuel) :
     ∃ v : ℝ, F.gamma.checked_gamma_lr a x = .ok v ∧ F.gamma.checked_gamma_ur a x = .ok (1 - v) :=
@@ -108,15 +109,15 @@ theorem gamma_lr_ur_cf_complement (a x : ℝ) (ha : (0.0000000000000011102230246
         ((x + (1.0 : ℝ)) / (((x + ((1.0 : ℝ) - a)) + (1.0 : ℝ)) * x))
       = LoopR.done (y, z, c, p3, p2, q3, q2, ans)) :
     ∃ v : ℝ, F.gamma.checked_gamma_ur a x = .ok v ∧ F.gamma.checked_gamma_lr a x = .ok (1 - v) := by
-  have hx : (0.0000000000000011102230246251565 : ℝ) < x := lt_trans (by norm_num) hx1
-  obtain ⟨g1, g2, g3, g4, g5⟩ := gamma_lr_guards_real ha hx
+  have hx : (0 : ℝ) < x := lt_trans one_pos hx1
+  obtain ⟨g1, g2, g3, g4⟩ := gamma_lr_guards_real ha hx
   have hsl : ¬ (x ≤ (1.0 : ℝ) ∨ x ≤ a) := by
     rw [show (1.0 : ℝ) = 1 by norm_num]; push Not; exact ⟨hx1, hxa⟩
   have hsu := ur_guards hx1.le hxa
   by_cases hu : (((a * (RFun.ln x)) - x) - (F.gamma.ln_gamma a)) < -(709.78271289338399 : ℝ)
   · refine ⟨0, ?_, ?_⟩
     · rw [BranchPins.checked_gamma_ur_underflow a x g1 g2 g3 hsu hu, if_pos hxa]; norm_num
-    · rw [BranchPins.checked_gamma_lr_underflow a x g1 g2 g3 g4 g5 hu, if_pos hxa]; norm_num
+    · rw [BranchPins.checked_gamma_lr_underflow a x g1 g2 g3 g4 hu, if_pos hxa]; norm_num
   · have hur : F.gamma.checked_gamma_ur.loop1 loopFuel (4503599627370496.0 : ℝ) (2.22044604925031308085e-16 : ℝ)
         (0.000000000000001 : ℝ) ((1.0 : ℝ) - a) ((x + ((1.0 : ℝ) - a)) + (1.0 : ℝ)) (0.0 : ℝ) (1.0 : ℝ)
         (x + (1.0 : ℝ)) x (((x + ((1.0 : ℝ) - a)) + (1.0 : ℝ)) * x)
@@ -126,7 +127,7 @@ theorem gamma_lr_ur_cf_complement (a x : ℝ) (ha : (0.0000000000000011102230246
       rw [h00, gamma_ur_loop1_eq_lr_loop3, hloop]; rfl
     refine ⟨ans * Real.exp (a * Real.log x - x - F.gamma.ln_gamma a), ?_, ?_⟩
     · rw [BranchPins.checked_gamma_ur_cf a x _ _ _ _ _ _ _ _ g1 g2 g3 hsu hu hur]; rfl
-    · rw [BranchPins.checked_gamma_lr_cf a x _ _ _ _ _ _ _ _ g1 g2 g3 g4 g5 hu hsl hloop]
+    · rw [BranchPins.checked_gamma_lr_cf a x _ _ _ _ _ _ _ _ g1 g2 g3 g4 hu hsl hloop]
       simp only [rfun_exp, rfun_ln]
       congr 1
       norm_num
@@ -142,8 +143,8 @@ theorem gamma_ur_cf_value (a x : ℝ) (ha : (0.0000000000000011102230246251565 :
     F.gamma.checked_gamma_ur a x =
       .ok (cfA a x (cfStopIdx a x 1e-15 + 2) / cfB a x (cfStopIdx a x 1e-15 + 2)
         * Real.exp (a * Real.log x - x - F.gamma.ln_gamma a)) := by
-  have hx : (0.0000000000000011102230246251565 : ℝ) < x := lt_of_lt_of_le (by norm_num) hx1
-  obtain ⟨g1, g2, g3, -, -⟩ := gamma_lr_guards_real ha hx
+  have hx : (0 : ℝ) < x := lt_of_lt_of_le one_pos hx1
+  obtain ⟨g1, g2, g3, -⟩ := gamma_lr_guards_real ha hx
   have e15 : (0.000000000000001 : ℝ) = 1e-15 := by norm_num
   have hloop := gamma_lr_loop3_start (4503599627370496.0 : ℝ) (2.22044604925031308085e-16 : ℝ) 1e-15 a x
     (by norm_num) hex loopFuel hfuel
